@@ -310,6 +310,45 @@ func c22HoldsOnOneShard(q *c22Query, specs []c22ShardSpec) bool {
 	return e.Ambiguous == "" && cl == ""
 }
 
+// c22CondFieldMissingInSomeShard: the WHERE clause compares a field that some shard holding
+// points of a queried measurement has no value of.
+func c22CondFieldMissingInSomeShard(q *c22Query, specs []c22ShardSpec) bool {
+	var fields []string
+	var walk func(c *c22Cond)
+	walk = func(c *c22Cond) {
+		if c == nil {
+			return
+		}
+		if c.Op == "field" {
+			fields = append(fields, c.Key)
+		}
+		walk(c.L)
+		walk(c.R)
+	}
+	walk(q.Cond)
+	for _, f := range fields {
+		for _, me := range q.Meas {
+			for _, s := range specs {
+				hasMeas, hasField := false, false
+				for _, b := range s.Batches {
+					for _, w := range b {
+						if w.Meas == me {
+							hasMeas = true
+							if _, ok := w.Fields[f]; ok {
+								hasField = true
+							}
+						}
+					}
+				}
+				if hasMeas && !hasField {
+					return true
+				}
+			}
+		}
+	}
+	return false
+}
+
 // c22Shift moves every stored timestamp and shard boundary by k ns.
 func c22Shift(specs []c22ShardSpec, k int64) []c22ShardSpec {
 	out := make([]c22ShardSpec, len(specs))
@@ -403,6 +442,13 @@ func c22Report(r *vkit.Run, st *c22Stack, ds *c22Dataset, q *c22Query, dsNo, qNo
 	if (mq.SLimit > 0 || mq.SOff > 0) && len(ds.Specs) > 1 && c22HoldsOnOneShard(mq, ds.Specs) {
 		feat["observed"] = class
 		class = "slimit_depends_on_shard_layout"
+		w.Class = class
+	}
+	if class != "error" && class != "slimit_depends_on_shard_layout" && len(ds.Specs) > 1 && c22CondFieldMissingInSomeShard(mq, ds.Specs) && c22HoldsOnOneShard(mq, ds.Specs) {
+		// a WHERE comparison on a field that one shard of the measurement has never seen is read
+		// as a tag comparison in that shard (absent tag = ""), as a field comparison elsewhere
+		feat["observed"] = class
+		class = "where_field_unknown_to_a_shard_read_as_tag"
 		w.Class = class
 	}
 	if mq.Fill == 'l' && mq.TLo < 0 && class == "row_value" && c22HoldsShifted(mq, ds.Specs) {
